@@ -89,6 +89,13 @@ def gen_cases(rng, tier):
     for variant in ("wrong", "wrongcseq", "bad", "none"):
         script = "0:inv:%s,1000:provrel:183,1200:prack:%s,1300:prack:%s,2200:prack,50000:wait" % (rel, variant, variant)
         cases.append(["pv%d" % n, "c12", "uas", "-", script, "1", "rel1xx", "1000", "2200"]); n += 1
+    # a CANCEL (or BYE) that arrives while the application waits for the PRACK of a reliable provisional response - the acceptor holds the
+    # state all that time, the INVITE is still pending: the CANCEL wins as at any other moment before the final response
+    for first in ("cancel", "bye"):
+        for tail in (",1200:prack", ",1400:prack,2000:accept", ",1200:prack,2000:reject:486"):       # (without a PRACK the acceptor keeps the state for 64*T1 and the CANCEL is handled after that)
+            script = "0:inv:%s,1000:provrel:183,1100:%s%s,60000:wait" % (rel, first, tail)
+            model = first + (",accept" if "accept" in tail else ",reject:486" if "reject" in tail else "")
+            cases.append(["rp%d" % n, "c12", "uas", "-", script, "1", "race", model]); n += 1
     # ---- races
     evs = ["cancel", "cancelx", "bye", "accept", "reject:486", "prov"]
     seqs = []
